@@ -214,3 +214,50 @@ class WithCached:
     @functools.cached_property
     def cached(self):
         return 1
+
+
+# ---- added for the recorded real-run harness (C02): delegation, exception exits, escaping closures
+def gen_words(n):
+    for _ in range(n):
+        yield "w"
+
+
+def gen_delegating(n):
+    yield n
+    yield from gen_words(n)
+    return 2.5
+
+
+def caught_inside(a):
+    try:
+        raises(a)
+    except ValueError:
+        return "caught"
+
+
+def gen_raising(n):
+    yield n
+    raise KeyError(n)
+
+
+def make_recursive():
+    def rec(n):
+        return 0 if n <= 0 else rec(n - 1)
+
+    return rec
+
+
+def takes_dict(d, *rest, flag=False, **more):
+    return [d]
+
+
+def star_then_kwonly(first, *rest, sep, end="\n"):
+    return sep
+
+
+async def coro_awaiting(x):
+    import asyncio
+
+    await asyncio.sleep(0)
+    await asyncio.sleep(0)
+    return [x]
